@@ -72,6 +72,39 @@ def wellformed(P, pos, C):
     return True
 
 
+def _check_str_entry(ctx, model):
+    """str() prints through a stringifier that writes every occurrence of a
+    subtree itself.  A memoizing one keys its table by (class, node, precedence)
+    and nodes compare with ==, so `a[1]` and `a[1.0]`, `x**2` and `x**2.0`
+    share one text: the printed form no longer parses back to the tree."""
+    import ast
+    cached = model.cls("pymbolic.mapper:CachedMapper")
+    n = 0
+    for c in model.classes.values():
+        mem = c.members.get("make_stringifier")
+        if mem is None or mem.kind != "func":
+            continue
+        for r in ast.walk(mem.node):
+            if not (isinstance(r, ast.Return) and isinstance(r.value, ast.Call)):
+                continue
+            k = model.resolve_in_module(c.module, r.value.func)
+            if k is None or not hasattr(k, "members"):
+                continue
+            n += 1
+            bad = k is cached or model.is_subclass(k, cached)
+            ctx.ob(f"O/printer/{c.name}.make_stringifier/not-memoized-by-equality",
+                   not bad, c.module.loc(r),
+                   f"str() of a {c.name} prints through {k.name}, a memoizing "
+                   "mapper: its table is keyed by the node, and nodes that "
+                   "differ only in the type of a nested constant compare equal "
+                   "(a[1] and a[1.0], x**2 and x**2.0), so the second one is "
+                   "printed with the first one's text and parsing it back gives "
+                   "another tree" if bad else
+                   f"str() prints through {k.name}, which writes every "
+                   "occurrence itself")
+    ctx.floor("make_stringifier definitions resolved", n, 1)
+
+
 def run(ctx):
     model = ctx.model
     ctx.decide("printer precedence/forced-parenthesis table (extracted from "
@@ -88,6 +121,7 @@ def run(ctx):
     ctx.assume("unary minus applied by the parser means (-1)*operand with "
                "splicing into products (decided by C03)")
 
+    _check_str_entry(ctx, model)
     ptab = extract_parser_table(model)
     prtab = extract_printer_table(model)
     ctx.floor("parser postfix branches", len(ptab.postfix), 21)
